@@ -152,11 +152,13 @@ impl Dialect for Hiding {
         self.inner.gc_candidate(a, op)
     }
     fn op(&self, a: &mut Allocator, op: NodePtr, args: NodePtr, max_cost: Cost, ext: OperatorSet) -> Response {
-        if a.atom_len(op) == 4 {
-            let b = a.atom(op);
-            if b.as_ref() == [0x13, 0xd6, 0x1f, 0x00] || b.as_ref() == [0x1c, 0x3a, 0x8f, 0x00] {
-                return clvmr::more_ops::op_unknown(a, op, args, max_cost, self.inner.flags());
+        // a node that does not know the secp operators sees every multi-byte opcode as an unknown operator
+        // (ChiaDialect assigns no other multi-byte opcode): the published unknown-operator rule applies
+        if a.atom_len(op) > 1 {
+            if self.inner.flags().contains(ClvmFlags::NO_UNKNOWN_OPS) {
+                return Err(clvmr::error::EvalErr::Unimplemented(op));
             }
+            return clvmr::more_ops::op_unknown(a, op, args, max_cost, self.inner.flags());
         }
         self.inner.op(a, op, args, max_cost, ext)
     }
